@@ -66,7 +66,10 @@ def check(prog, rep):
     # ------------------------------------------------------------------ R1 / R2
     r1 = rep.rule("R1", "placement calls superpose Template points onto Structure points and place a Template point", floor=6)
     r2 = rep.rule("R2", "structure and template lists are filled in lockstep from the same atom key; n equals the number of pairs", floor=6)
+    decided = placement_models(prog, r1, r2)  # functions whose placement calls are decided on object models (any code shape)
     for key, f in sorted(prog.funcs.items()):
+        if key in decided:
+            continue
         for c in calls_in(f.node):
             if U(c.func) != "quat.find_coordinates":
                 continue
@@ -374,6 +377,103 @@ def rule_peptide_pointers(prog, rep, t, rid="R6"):
     r.add("limit-separates-bonded-from-1-3", max(bonded) < limit < min(non),
           f"{limit_txt} = {limit}: template C-N bond lengths {min(bonded):.2f}-{max(bonded):.2f} A, nearest non-bonded (CA...N+1, CA...C-1) "
           f"{min(non):.2f} A; the limit must lie strictly between", "pdb2pqr/config.py")
+
+
+def placement_models(prog, r1, r2):
+    """Biomolecule.add_hydrogens and Biomolecule.repair_heavy are evaluated on a model residue with symbolic coordinates; the
+    superposition itself stays uninterpreted.  The call must receive (n, structure points, template points, template point of
+    the atom being built) with the i-th structure point and the i-th template point belonging to the same atom, anchors that are
+    absent skipped, the neighbour's N / C taken through the peptide pointers, n = number of pairs = 3; the atom created is what
+    the superposition returns.  Returns the keys of the functions decided this way."""
+    import sympy as sp
+    from ..guards import Flow, Obj
+    from ..objinterp import ObjRunner
+    decided = set()
+
+    def S(name):
+        return [sp.Symbol(f"S_{name}_{i}") for i in range(3)]
+
+    def T(name):
+        return [sp.Symbol(f"T_{name}_{i}") for i in range(3)]
+
+    for meth, target, anchors in (("add_hydrogens", "HX", ["A1", "C-1", "GONE", "A2", "A3"]), ("repair_heavy", "CX", ["N+1", "A1", "GONE", "A2", "A3"])):
+        key = f"biomolecule.py::Biomolecule.{meth}"
+        fi = prog.funcs.get(key)
+        if fi is None:
+            continue
+        where = f"pdb2pqr/biomolecule.py:{fi.node.lineno} (Biomolecule.{meth})"
+        tmap = {n: Obj({"__class__": "DefinitionAtom", "name": n, "coords": T(n), "bonds": []}) for n in ["A1", "A2", "A3", "GONE", "N+1", "C-1", target, "N", "CA"]}
+        present = {n: Obj({"__class__": "Atom", "name": n, "x": S(n)[0], "y": S(n)[1], "z": S(n)[2],
+                           "__props__": {"coords": lambda a_: [a_["x"], a_["y"], a_["z"]]}}) for n in ["A1", "A2", "A3", "N", "CA"]}
+        pn = Obj({"__class__": "Atom", "name": "N", "x": S("pn")[0], "y": S("pn")[1], "z": S("pn")[2], "__props__": {"coords": lambda a_: [a_["x"], a_["y"], a_["z"]]}})
+        pc = Obj({"__class__": "Atom", "name": "C", "x": S("pc")[0], "y": S("pc")[1], "z": S("pc")[2], "__props__": {"coords": lambda a_: [a_["x"], a_["y"], a_["z"]]}})
+        ref = Obj({"__class__": "DefinitionResidue", "map": tmap, "name": "SER"})
+        res = Obj({"__class__": "SER", "name": "SER", "reference": ref, "map": present, "atoms": list(present.values()), "peptide_n": pn, "peptide_c": pc,
+                   "res_seq": 1, "chain_id": "A", "ins_code": "", "ss_bonded": False, "missing": [target] if meth == "repair_heavy" else []})
+        rec = {"fc": [], "created": []}
+        RESULT = [sp.Symbol(f"P{i}") for i in range(3)]
+
+        def extra(runner, interp, call, args, kw, rec=rec, res=res, ref=ref, anchors=anchors, target=target):
+            nm = U(call.func)
+            if nm.endswith("find_coordinates"):
+                rec["fc"].append(args)
+                return list(RESULT)
+            if isinstance(call.func, ast.Attribute):
+                recv = None
+                try:
+                    recv = interp.ev(call.func.value)
+                except AnalysisError:
+                    return NotImplemented
+                a_ = call.func.attr
+                if recv is res:
+                    if a_ == "has_atom":
+                        return args[0] in res["map"]
+                    if a_ == "get_atom":
+                        return res["map"].get(args[0])
+                    if a_ == "create_atom":
+                        rec["created"].append((args[0], args[1]))
+                        return None
+                    if a_ == "rebuild_tetrahedral":
+                        return False
+                    if a_ in ("remove_atom",):
+                        return None
+                if recv is ref:
+                    if a_ == "get_nearest_bonds":
+                        return list(anchors) if args[0] == target else []
+                    if a_ == "has_atom":
+                        return args[0] in ref["map"]
+            if nm == "hasattr" and len(args) == 2:
+                return args[1] == "rebuild_tetrahedral" or (isinstance(args[0], dict) and args[1] in args[0])
+            return NotImplemented
+
+        run = ObjRunner(prog, "biomolecule.py", extra_hook=extra)
+        bio = Obj({"__class__": "Biomolecule", "residues": [res], "num_missing_heavy": 1})
+        # only hydrogens named H* are built by add_hydrogens: the template holds exactly one (HX) that is missing
+        try:
+            run.call(bio, meth)
+        except Flow as fl:
+            raise AnalysisError(f"{meth} stops with {fl.value} on the model residue") from None
+        except AnalysisError:
+            continue  # shape outside the interpreter: the syntactic analysis below takes over
+        calls = rec["fc"]
+        if len(calls) != 1 or len(calls[0]) != 4:
+            r1.add(f"site|{key}", False, f"{len(calls)} placement call(s) for the one missing atom {target} of the model residue", where)
+            decided.add(key)
+            continue
+        n_, sc, tc, ta = calls[0]
+        used = [a for a in anchors if a != "GONE"][:3]
+        want_s = [S("pc") if a == "C-1" else S("pn") if a == "N+1" else S(a) for a in used]
+        want_t = [T(a) for a in used]
+        ok1 = [list(x) for x in sc] == want_s and [list(x) for x in tc] == want_t and list(ta) == T(target)
+        r1.add(f"site|{key}", ok1, f"model residue, anchors {anchors} ('GONE' is absent): the superposition receives structure points of {used} "
+               "(neighbour atoms through the peptide pointers), the template points of the same atoms in the same order, and the template point of "
+               f"{target}" if ok1 else f"find_coordinates receives {str(sc)[:90]} / {str(tc)[:90]} / {str(ta)[:40]}: not (Structure, Template of the same atoms, Template of {target})", where)
+        okc = rec["created"] == [(target, RESULT)]
+        r2.add(f"pairs|{key}", n_ == 3 and len(sc) == 3 and len(tc) == 3 and okc,
+               f"n = {n_} = number of pairs {len(sc)}/{len(tc)}; the atom created is {target} at the returned point" if n_ == 3 and len(sc) == 3 and okc else
+               f"n = {n_}, {len(sc)} structure / {len(tc)} template points, created {str(rec['created'])[:80]}", where)
+        decided.add(key)
+    return decided
 
 
 def rule_completion_reads_occupied(prog, rep):
